@@ -469,4 +469,209 @@ theorem loginv_next0 (s s' : St n) (t : Fin n) (b : Bool) (h : next0 s t b = som
       exact loginv_end s _ a hL t o sent hpc rfl rfl rfl (fun u hu => by simp [fin, upd, hu])
         (Or.inr ⟨by simpa using hl, _, rfl⟩)
 
+theorem loginv_reach (progs : Fin n → List Op) (hr : Real progs) (s : St n) (h : Reach progs s) : LogInv s := by
+  induction h with
+  | init =>
+    intro c ch
+    simp [chLog, chOut, inflight, init, absLin, PubSub.run, PubSub.init]
+  | step s s' hs hst ih =>
+    have a := allinv_reach progs hr s hs
+    cases hst with
+    | thr _ t b h =>
+      obtain ⟨s1, h0, rfl⟩ := next_eq s s' t b h
+      have := loginv_next0 s s1 t b h0 a ih
+      exact fun c ch => this c ch
+    | die c => exact fun c' ch => ih c' ch
+
+/-! ### the theorems -/
+
+/-- no thread is inside a delivery loop (in particular: every thread has finished) -/
+def NoLoop (s : St n) : Prop := ∀ t o sent todo, (s.thr t).pc ≠ .p4 o sent todo
+
+theorem inflight_noloop (s : St n) (h : NoLoop s) (c : Conn) (ch : Chan) : inflight s c ch = [] := by
+  unfold inflight
+  cases s.table ch with
+  | none => rfl
+  | some o =>
+    simp only [view]
+    cases hu : s.ow o with
+    | none => rfl
+    | some u =>
+      have : p4view (s.thr u) = none := by
+        unfold p4view
+        split
+        · rename_i o' sent todo hpc; exact absurd hpc (h u o' sent todo)
+        · rfl
+      simp [this]
+
+/-- what the sequential specification `Ds/PubSub.lean` says connection `c` must have received on channel `ch` after the history `l`:
+    the messages published to `ch` while `c` was subscribed to it, in order (`PubSub.expected`, restricted to the channel) -/
+def expectedOn (c : Conn) (ch : Chan) (l : List PubSub.Op) : List Payload :=
+  ((PubSub.expected c l.reverse).filter (fun p => p.1 = ch)).map (·.2)
+
+theorem chOut_expected (l : List PubSub.Op) (c : Conn) (ch : Chan) : chOut l c ch = expectedOn c ch l := by
+  unfold chOut expectedOn
+  rw [PubSub.delivery_exact]
+
+/-- **PER-CHANNEL LINEARIZABILITY of the Pub/Sub table** (`_partial`: the delivery logs are compared channel by channel — the
+    interleaving of different channels' messages in one connection's log is NOT linearizable, see
+    `cross_channel_order_not_linearizable`).
+
+    For every program of Subscribe / UnSubscribe / Send operations on any number of threads, every schedule, every pattern of
+    connection deaths and write failures, in every reachable state the ghost sequence `s.lin` is a linearization:
+
+    1. (complete, inside the interval) every completed operation `r` has its abstract operation at a position `i` of `lin` with
+       `r.invLen ≤ i < r.retLen`, where `invLen` / `retLen` are the lengths of the append-only `lin` at its invocation / return;
+    2. (real time) if `r1` returned before `r2` was invoked (clock values `r1.retAt ≤ r2.invAt`), every such position of `r1` is
+       before every such position of `r2`;
+    3. (legal, replies) the reply of a completed Send on `ch` is the number of subscribers of `ch` the sequential specification
+       `PubSub.run` has after the operations before position `i`;
+    4. (legal, state) the subscription table of the specification after `lin` is the concrete table;
+    5. (legal, deliveries) when no thread is inside a delivery loop, for every connection and channel the connection's log
+       restricted to the channel is exactly `PubSub.expected` restricted to the channel: the messages published to the channel
+       while the connection was subscribed, each once, in linearization order. -/
+theorem pubsub_linearizable_partial (progs : Fin n → List Op) (hr : Real progs) (s : St n) (h : Reach progs s) :
+    (∀ r ∈ s.done, RecOk s.lin r) ∧
+    (∀ r1 ∈ s.done, ∀ r2 ∈ s.done, r1.retAt ≤ r2.invAt →
+        ∀ i1 i2, i1 < r1.retLen → r2.invLen ≤ i2 → i1 < i2) ∧
+    (∀ ch c, (ch, c) ∈ (PubSub.run (absLin s.lin)).subs ↔ ∃ o, s.table ch = some o ∧ c ∈ s.subs o) ∧
+    (NoLoop s → ∀ c ch, chLog s c ch = expectedOn c ch (absLin s.lin)) := by
+  have a := allinv_reach progs hr s h
+  have T := tinv_reach progs s h
+  have L := loginv_reach progs hr s h
+  refine ⟨a.w.recs, ?_, a.r, ?_⟩
+  · intro r1 h1 r2 h2 hle i1 i2 hi1 hi2
+    have := T.t4 r1 h1 r2 h2 hle
+    omega
+  · intro hn c ch
+    rw [L c ch, inflight_noloop s hn, List.append_nil, chOut_expected]
+
+/-- per-channel publish order and exactly-once, as a corollary: at quiescence two connections' logs on one channel are both
+    sublists... of the same publish sequence — stated directly: both are `expectedOn` of the SAME linearization -/
+theorem same_linearization_for_all_connections (progs : Fin n → List Op) (hr : Real progs) (s : St n) (h : Reach progs s)
+    (hn : NoLoop s) (ch : Chan) (c1 c2 : Conn) :
+    chLog s c1 ch = expectedOn c1 ch (absLin s.lin) ∧ chLog s c2 ch = expectedOn c2 ch (absLin s.lin) :=
+  ⟨(pubsub_linearizable_partial progs hr s h).2.2.2 hn c1 ch, (pubsub_linearizable_partial progs hr s h).2.2.2 hn c2 ch⟩
+
+#print axioms pubsub_linearizable_partial
+
+/-! ### NEGATIVE: the interleaving of two channels in one connection's log is not linearizable
+
+Two Sends on DIFFERENT channels hold different object locks and write to their subscribers one by one, concurrently; the two
+channels list their two common subscribers in different orders.  Connection 1 receives A then B, connection 2 receives B then A.
+In the sequential specification every connection's outbox is a subsequence of ONE publish order. -/
+
+def pubOrder : List PubSub.Op → List (Chan × Payload)
+| [] => []
+| .publish ch m :: l => (ch, m) :: pubOrder l
+| _ :: l => pubOrder l
+
+theorem outbox_sublist (l : List PubSub.Op) : ∀ (st : PubSub.St) (c : Conn),
+    ∃ x, (l.foldl PubSub.step st).outbox c = st.outbox c ++ x ∧ x.Sublist (pubOrder l) := by
+  induction l with
+  | nil => intro st c; exact ⟨[], by simp, List.Sublist.refl _⟩
+  | cons op l ih =>
+    intro st c
+    obtain ⟨x, h1, h2⟩ := ih (PubSub.step st op) c
+    simp only [List.foldl_cons]
+    cases op with
+    | subscribe c' ch =>
+      refine ⟨x, ?_, h2⟩
+      rw [h1]; simp only [PubSub.step]; split <;> rfl
+    | unsubscribe c' ch => exact ⟨x, by rw [h1]; rfl, h2⟩
+    | disconnect c' => exact ⟨x, by rw [h1]; rfl, h2⟩
+    | publish ch m =>
+      simp only [PubSub.step, PubSub.deliver] at h1
+      by_cases hs : (ch, c) ∈ st.subs
+      · refine ⟨(ch, m) :: x, ?_, List.Sublist.cons_cons _ h2⟩
+        show (List.foldl PubSub.step _ l).outbox c = _
+        simp only [PubSub.step]
+        rw [h1]; simp [hs]
+      · refine ⟨x, ?_, List.Sublist.cons _ h2⟩
+        show (List.foldl PubSub.step _ l).outbox c = _
+        simp only [PubSub.step]
+        rw [h1]; simp [hs]
+
+def chA : Chan := [97]
+def chB : Chan := [98]
+
+def xProgs : Fin 4 → List Op := fun t =>
+  if t = 0 then [.subscribe 1 chA, .subscribe 1 chB]
+  else if t = 1 then [.subscribe 2 chB, .subscribe 2 chA]
+  else if t = 2 then [.send chA [1]] else [.send chB [2]]
+
+theorem xProgs_real : Real xProgs := by
+  intro t op h
+  unfold xProgs at h
+  split at h
+  · simp at h; rcases h with rfl | rfl <;> rfl
+  · split at h
+    · simp at h; rcases h with rfl | rfl <;> rfl
+    · split at h <;> simp at h <;> subst h <;> rfl
+
+/-- conn 1 joins A, conn 2 joins B, conn 1 joins B, conn 2 joins A (so A lists [1,2], B lists [2,1]); then the two Sends run
+    concurrently: A→1, B→2, B→1, A→2 -/
+def xSched : List (Fin 4 × Bool) :=
+  (List.replicate 7 (0, false)) ++ (List.replicate 7 (1, false)) ++ (List.replicate 7 (0, false)) ++ (List.replicate 7 (1, false)) ++
+  (List.replicate 5 (2, false)) ++ (List.replicate 5 (3, false)) ++
+  [(2, false), (3, false), (3, false), (2, false), (2, false), (3, false)]
+
+theorem x_eval : (runSched (init xProgs) xSched).map (fun s =>
+    decide (s.log 1 = [(chA, [1]), (chB, [2])]) && decide (s.log 2 = [(chB, [2]), (chA, [1])]) &&
+    (List.finRange 4).all (fun t => decide ((s.thr t).pc = .idle) && decide ((s.thr t).prog = [])) &&
+    decide ((s.thr 2).replies = [2]) && decide ((s.thr 3).replies = [2])) = some true := by
+  decide
+
+/-- **the full statement is false for the cross-channel order**: a run of a real program in which all threads have finished, both
+    PUBLISH replies are 2, connection 1's log is [A, B] and connection 2's log is [B, A]; no sequential history whose PUBLISHes are
+    these two (in either order, with any other operations anywhere) gives both outboxes -/
+theorem cross_channel_order_not_linearizable :
+    ∃ s : St 4, Reach xProgs s ∧ (∀ t, finished (s.thr t)) ∧
+      ∀ l : List PubSub.Op, (pubOrder l = [(chA, [1]), (chB, [2])] ∨ pubOrder l = [(chB, [2]), (chA, [1])]) →
+        ¬ ((PubSub.run l).outbox 1 = s.log 1 ∧ (PubSub.run l).outbox 2 = s.log 2) := by
+  have h := x_eval
+  cases hr : runSched (init xProgs) xSched with
+  | none => rw [hr] at h; simp at h
+  | some s =>
+    rw [hr] at h
+    simp only [Option.map_some, Option.some.injEq, Bool.and_eq_true, decide_eq_true_eq, List.all_eq_true] at h
+    obtain ⟨⟨⟨⟨h1, h2⟩, hfin⟩, _⟩, _⟩ := h
+    refine ⟨s, reach_runSched xProgs xSched _ _ Reach.init hr, fun t => hfin t (List.mem_finRange t), ?_⟩
+    intro l hl ⟨e1, e2⟩
+    obtain ⟨x1, hx1, hs1⟩ := outbox_sublist l PubSub.init 1
+    obtain ⟨x2, hx2, hs2⟩ := outbox_sublist l PubSub.init 2
+    have f1 : x1 = [(chA, [1]), (chB, [2])] := by
+      have : (PubSub.run l).outbox 1 = x1 := by simpa [PubSub.run, PubSub.init] using hx1
+      rw [← this, e1, h1]
+    have f2 : x2 = [(chB, [2]), (chA, [1])] := by
+      have : (PubSub.run l).outbox 2 = x2 := by simpa [PubSub.run, PubSub.init] using hx2
+      rw [← this, e2, h2]
+    rw [f1] at hs1
+    rw [f2] at hs2
+    rcases hl with hl | hl <;> rw [hl] at hs1 hs2
+    · revert hs2; decide
+    · revert hs1; decide
+
+/-- the positive theorem on that very run: per channel, both logs are the specification's -/
+example : ∃ s : St 4, Reach xProgs s ∧ NoLoop s ∧ chLog s 1 chA = [[1]] ∧ chLog s 2 chA = [[1]] ∧
+    chLog s 1 chA = expectedOn 1 chA (absLin s.lin) ∧ chLog s 2 chB = expectedOn 2 chB (absLin s.lin) := by
+  have h := x_eval
+  cases hr : runSched (init xProgs) xSched with
+  | none => rw [hr] at h; simp at h
+  | some s =>
+    rw [hr] at h
+    simp only [Option.map_some, Option.some.injEq, Bool.and_eq_true, decide_eq_true_eq, List.all_eq_true] at h
+    obtain ⟨⟨⟨⟨h1, h2⟩, hfin⟩, _⟩, _⟩ := h
+    have hreach := reach_runSched xProgs xSched _ _ Reach.init hr
+    have hn : NoLoop s := by
+      intro t o sent todo hpc
+      have := (hfin t (List.mem_finRange t)).1
+      rw [this] at hpc; cases hpc
+    have hlin := (pubsub_linearizable_partial xProgs xProgs_real s hreach).2.2.2 hn
+    refine ⟨s, hreach, hn, ?_, ?_, hlin 1 chA, hlin 2 chB⟩
+    · unfold chLog; rw [h1]; decide
+    · unfold chLog; rw [h2]; decide
+
+#print axioms cross_channel_order_not_linearizable
+
 end PSC
